@@ -39,7 +39,11 @@ theorem C07_decoders_fit :
   ⟨Proofs.b64_fits, Proofs.b64pton_fits, Proofs.qp_fits, Proofs.rfc2047_fits⟩
 
 /-- Header table: every probe of the binary search is inside the table, the search terminates by itself, and
-the slice handed to callers is inside the table - for every table, sorted or not, and every name. -/
+the slice handed to callers is inside the table - for every table, sorted or not, and every name.
+NOTE (audit au2): the first clause is about `Proofs.bsearchProbes`, a ghost copy of `Model.bsearch` that lists the
+indices `mi` (the list-level `bsearch` reads with the totalised `hs[mi]!`, on which "in bounds" cannot be stated);
+no theorem links the ghost to `bsearch`, and the probes of the `beg` / `end` scans are not listed.  The statement that
+carries weight is `C07_L0_search` below (checked accessor on every probe, `beg - 1` and `end` included). -/
 theorem C07_search_in_bounds (hs : List Hdr) (key : Bytes) :
     (hs ≠ [] → ∀ i ∈ Proofs.bsearchProbes hs.toArray key 0 (hs.length - 1) (hs.length + 1), i < hs.length) ∧
     (hs ≠ [] → ∀ f, hs.length + 1 ≤ f → bsearch hs.toArray key 0 (hs.length - 1) f = bsearch hs.toArray key 0 (hs.length - 1) (hs.length + 1)) ∧
